@@ -72,8 +72,10 @@ def r2(ctx):
               'Unknown encodes as %s' % enc.get('Unknown'), sample=enc.get('Unknown'))
     unk = [a for a in p.aggregates(r'nts::record::NtsRecord$', 'Unknown')]
     for a in unk:
-        f = {k: N(p.operand_term(o)) for k, o in zip(a.data['rv']['fields'], a.data['rv']['ops'])}
-        ctx.check('parse|unknown-fields', f.get('record_type') == 'record_type' and f.get('critical') == 'critical', 'Unknown built from %s' % f, a.where(), sample={k: f[k] for k in ('record_type', 'critical')})
+        f = {k: S(p.operand_term(o)) for k, o in zip(a.data['rv']['fields'], a.data['rv']['ops'])}
+        # name-free: the stored number is the 16-bit word read from the wire without the critical bit, the flag is that bit
+        ok = re.match(r'^\(.*read_u16\(reader\).* & 32767\)$', f.get('record_type', '')) is not None and re.match(r'^\(\(.*read_u16\(reader\).* & 32768\) != 0\)$', f.get('critical', '')) is not None
+        ctx.check('parse|unknown-fields', ok, 'Unknown built from %s' % {k: v[-40:] for k, v in f.items()}, a.where(), sample={k: f[k][-40:] for k in ('record_type', 'critical')})
     ctx.check('record_type|all-variants', len(enc) == 15, 'record_type covers %d variants' % len(enc), sample=sorted(enc))
 
 
